@@ -223,7 +223,15 @@ def instance_registration(ctx):
             continue
         ctx.touch(f)
         cfg = CFG(f)
-        ins = [t for t in f.calls() if (t.path or "").rsplit("::", 1)[-1] in ("insert", "entry") and narrow(prov, f, t.args[0]).has_field("instances", "encoding::Scope")]
+        ins = [t for t in f.calls() if (t.path or "").rsplit("::", 1)[-1] == "insert" and narrow(prov, f, t.args[0]).has_field("instances", "encoding::Scope")]
+        keep = [t for t in f.calls() if (t.path or "").rsplit("::", 1)[-1] in ("entry", "or_insert", "or_insert_with") and (t.path or "").rsplit("::", 1)[-1] == "entry"
+                and narrow(prov, f, t.args[0]).has_field("instances", "encoding::Scope")]
+        if keep and not ins:
+            n += 1
+            ctx.ob("R08.10", "registers|" + f.id.split("::", 1)[1], False,
+                   "%s records the new instance with `entry(..).or_insert(..)`: when the interface already has an instance in the scope (imported, or pulled in as a dependency) the older index is kept, "
+                   "and later items alias their types from that instance instead of the one just emitted" % f.id.split("::", 1)[1], site="%s in %s" % (keep[0].span, f.id))
+            continue
         n += 1
         short = f.id.split("::", 1)[1]
 
